@@ -102,24 +102,27 @@ def run_e2(res, tier):
 
 def run(tier):
     res = core.Result("C11", tier)
-    out = e4.run_suite("intoresp", tier)
-    res.add(states=out["responses"], transitions=out["responses"], traces=out["responses"], evaluations=out["responses"])
-    res.nontrivial = set(range(out["nontrivial"]))
-    for oc in out["outcomes"]:
-        res.outcome(oc)
-    seen = set()
-    for v in out["violations"]:
-        key = (v["what"], tuple(v.get("msg_kinds", [])))
-        if key in seen:
-            continue
-        seen.add(key)
-        res.violation({"kind": "intoresp", "cls": v["what"], "msg_kinds": v.get("msg_kinds"), "response": v.get("response"), "error": v.get("error"),
-                       "what": "into_response: %s; message kinds %s; %s" % (v["what"], v.get("msg_kinds"), (v.get("error") or "")[:200])})
-    if out["bad"] and not out["violations"]:
-        raise core.MachineryError("intoresp suite counted bad cases but reported none")
-    res.parts.update({"responses": out["responses"], "message_lists": out["message_lists"], "submsg_alphabet": out["submsg_alphabet"], "msg_kinds": out["msg_kinds"],
-                      "conversion_errors": out["errors"]})
-    res.sample(out["sample"])
+    out = e4.run_suite_into(res, "intoresp", tier)
+    if out is not None:
+        res.add(states=out["responses"], transitions=out["responses"], traces=out["responses"], evaluations=out["responses"])
+        res.nontrivial = set(range(out["nontrivial"]))
+        for oc in out["outcomes"]:
+            res.outcome(oc)
+        seen = set()
+        for v in out["violations"]:
+            key = (v["what"], tuple(v.get("msg_kinds", [])))
+            if key in seen:
+                continue
+            seen.add(key)
+            res.violation({"kind": "intoresp", "cls": v["what"], "msg_kinds": v.get("msg_kinds"), "response": v.get("response"), "error": v.get("error"),
+                           "what": "into_response: %s; message kinds %s; %s" % (v["what"], v.get("msg_kinds"), (v.get("error") or "")[:200])})
+        if out["bad"] and not out["violations"]:
+            raise core.MachineryError("intoresp suite counted bad cases but reported none")
+        res.parts.update({"responses": out["responses"], "message_lists": out["message_lists"], "submsg_alphabet": out["submsg_alphabet"], "msg_kinds": out["msg_kinds"],
+                          "conversion_errors": out["errors"]})
+        res.sample(out["sample"])
+    else:
+        out = e4.stub()
     run_e2(res, tier)
     res.cov["rule"] = ("E4: every Response<Empty> with <= 2 sub-messages over %d message kinds (every CosmosMsg variant incl. Ibc, Gov, Any, deprecated Stargate, "
                        "Custom(Empty)) x id x payload x gas limit x reply_on, 0-2 attributes, 0-2 events, data absent/present, both orders of two sub-messages: "
